@@ -22,7 +22,7 @@ ASSUMPTIONS = [
     "remotes emulated by a non-local FileSystem over local disk",
 ]
 MONITORS = "os.walk listings of every remote/cache before and after vs independently computed reachable/designated sets; pushed/failed counts vs objects that newly appeared; workspace walk after checkout"
-REQUIRED_COUNTERS = ["layout/tops-only", "layout/root+deep", "layout/root+tops", "lazy_index_cases", "pushes", "fetches", "failure_rounds", "retries", "checkouts_from_fetched_cache", "multi_prefix_cases", "role_fallback_checks",
+REQUIRED_COUNTERS = ["collect_given_a_view", "layout/tops-only", "layout/root+deep", "layout/root+tops", "lazy_index_cases", "pushes", "fetches", "failure_rounds", "retries", "checkouts_from_fetched_cache", "multi_prefix_cases", "role_fallback_checks",
                      "objects_designation_checked", "shared_cache_cases", "exhaustive_subset_cases", "remote_index_cases"]
 
 
@@ -81,16 +81,21 @@ def run_shard(ctx):
             lazy = rng.random() < 0.4
             shared_cache = rng.random() < 0.5 or bool(deep_prefixes)
             shared_remote = rng.random() < 0.35 and not deep_prefixes
-            use_rindex = rng.random() < 0.4
+            use_rindex = rng.random() < 0.5
+            shared_tmp = rng.random() < 0.6
+            as_view = rng.random() < 0.4  # hand collect() a filtered view of the index, as dvc does
             rng.shuffle(prefixes)  # registration order of the storages varies
             res.count(f"layout/{layout}")
             if lazy:
                 res.count("lazy_index_cases")
+            if as_view:
+                res.count("collect_given_a_view")
             caches, remotes, rfs = {}, {}, {}
 
             def mk_remote(name):
                 rfs[name] = FaultyFS(page_size=rng.choice([None, 10]), jobs=rng.choice([1, 4]))
-                cfg = {"tmp_dir": os.path.join(d, "rtmp-" + name)} if use_rindex else {}
+                # remote indexes live under the repository's one tmp dir (shared by all remotes) or under one dir each
+                cfg = {"tmp_dir": os.path.join(d, "rtmp-shared" if shared_tmp else "rtmp-" + name)} if use_rindex else {}
                 remotes[name] = env.remote_odb(os.path.join(d, "remote-" + name), fs=rfs[name], **cfg)
 
             pmap = {}
@@ -128,6 +133,13 @@ def run_shard(ctx):
                         out[k] = _DE(key=k, meta=e.meta, hash_info=e.hash_info)
                 attach(out, cache_objs)
                 return out
+
+            def handed(i):
+                if not as_view:
+                    return i
+                from dvc_data.index import view as _view
+
+                return _view(i, lambda k: True)
 
             idx = md5(build(ws, fs))
             attach(idx, caches)
@@ -188,7 +200,7 @@ def run_shard(ctx):
             split_remote = {rn for rn, cs in caches_of_remote.items() if len(cs) > 1}
             res.count("objects_designation_checked", len(reach))
             cfg = {"prefixes": {"/".join(p) or "<root>": r for p, r in pmap.items()}, "files": sorted("/".join(k) for k in files)[:12],
-                   "reachable": len(all_reach), "layout": layout, "lazy_index": lazy, "shared_cache": shared_cache, "shared_remote": shared_remote, "remote_index": use_rindex}
+                   "reachable": len(all_reach), "layout": layout, "lazy_index": lazy, "shared_cache": shared_cache, "shared_remote": shared_remote, "remote_index": use_rindex, "shared_tmp_dir": shared_tmp, "as_view": as_view}
             res.sample(cfg)
 
             def remote_state():
@@ -212,7 +224,7 @@ def run_shard(ctx):
                     _force_rmtree(o.path)
                     os.makedirs(o.path)
                     if use_rindex:
-                        _force_rmtree(os.path.join(d, "rtmp-" + n))
+                        _force_rmtree(os.path.join(d, "rtmp-shared" if shared_tmp else "rtmp-" + n))
                     mk_remote_again = None
                     _ = mk_remote_again
                 res.evaluated()
@@ -222,7 +234,7 @@ def run_shard(ctx):
                 before = remote_state()
                 for n, f in rfs.items():
                     f.fail_put = (lambda p, _o=remotes[n]: (os.path.relpath(p, _o.path).replace(os.sep, "") in S)) if S else None
-                pushed1, failed1 = push(collect([lazify(idx, caches) if lazy else idx], "remote", push=True))
+                pushed1, failed1 = push(collect([handed(lazify(idx, caches) if lazy else idx)], "remote", push=True))
                 for f in rfs.values():
                     f.fail_put = None
                 mid = remote_state()
@@ -243,7 +255,7 @@ def run_shard(ctx):
                         res.violation("failures-not-counted", "uploads failed but push reported failed == 0", case=case, detail=info)
                 # clean retry
                 res.count("retries")
-                pushed2, failed2 = push(collect([lazify(idx, caches) if lazy else idx], "remote", push=True))
+                pushed2, failed2 = push(collect([handed(lazify(idx, caches) if lazy else idx)], "remote", push=True))
                 after = remote_state()
                 if failed2:
                     res.violation("clean-retry-reports-failures", f"retry without faults reported failed={failed2}", case=case, detail=info)
@@ -293,7 +305,7 @@ def run_shard(ctx):
             attach(idx2, fresh)
             if lazy:
                 idx2 = lazify(idx2, fresh)
-            fetched, ffailed = fetch(collect([idx2], "remote"))
+            fetched, ffailed = fetch(collect([handed(idx2)], "remote"))
             cstate = {n: store_snapshot(o.path) for n, o in fresh.items()}
             if ffailed:
                 res.violation("fetch-reports-failures", f"fault-free fetch reported failed={ffailed}", case=case, detail=cfg)
